@@ -12,3 +12,54 @@ package storage
 //@   modifies $added
 //@   ghostdef result == nil ==> $added == old($added) + len(ts)
 //@   ghostdef result != nil ==> $added == old($added)
+
+// ---- Lookup options as a cache key (C19) -----------------------------------------------------------
+// loEnc: the text LookupOptions.String builds; the memoization layer hashes it into every cache key.
+// It is written as four nested layers so that "equal text, equal parts" can be proved layer by layer.
+//@ pool bufPool: x != nil
+//@ spec fdef enc4(b String, f String) String = b + ", FilterOptions=" + f + ">"
+//@ spec fdef enc3(u String, r String) String = u + ", LatestAnchor=" + r
+//@ spec fdef enc2(l String, r String) String = l + ", upper_anchor=" + r
+//@ spec fdef enc1(i String, r String) String = "<limit=" + i + ", lower_anchor=" + r
+//@ spec macro anchorText(t *time.Time) String = ite(t != nil, timefmt(deref(t), "2006-01-02T15:04:05.999999999Z07:00"), "nil")
+//@ spec macro loEnc(l *LookupOptions) String = enc1(itoa(l.MaxElements), enc2(anchorText(l.LowerAnchor), enc3(anchorText(l.UpperAnchor), enc4(ite(l.LatestAnchor, "true", "false"), fmtref(typetag("*filter.StorageOptions"), l.FilterOptions)))))
+
+//@ props C19
+//@ func (l *LookupOptions) String
+//@   requires l != nil
+//@   ensures[text] result == loEnc(l)
+
+//@ func (l *LookupOptions) UUID
+//@   requires l != nil
+//@   ensures[hash-of-text] result == sha16(loEnc(l))
+
+// Formatting facts assumed for the key lemma: decimal text of an int; RFC3339Nano text of a time
+// (determines instant and zone offset); the text of a *filter.StorageOptions under %s determines
+// whether it is nil and, if not, its three fields.
+//@ spec def isDecimal(s String) Bool = smt_in_re_decimal(s)
+//@ spec def isAnchorText(s String) Bool = !str_contains(s, ",")
+//@ axiom itoa-format: forall x Int :: {itoa(x)} isDecimal(itoa(x))
+//@ axiom itoa-injective: forall x Int, y Int :: {itoa(x), itoa(y)} itoa(x) == itoa(y) ==> x == y
+//@ axiom timefmt-format: forall t Time :: {timefmt(t, "2006-01-02T15:04:05.999999999Z07:00")} isAnchorText(timefmt(t, "2006-01-02T15:04:05.999999999Z07:00")) && timefmt(t, "2006-01-02T15:04:05.999999999Z07:00") != "nil"
+//@ axiom timefmt-injective: forall s Time, t Time :: {timefmt(s, "2006-01-02T15:04:05.999999999Z07:00"), timefmt(t, "2006-01-02T15:04:05.999999999Z07:00")} timefmt(s, "2006-01-02T15:04:05.999999999Z07:00") == timefmt(t, "2006-01-02T15:04:05.999999999Z07:00") ==> s == t
+//@ axiom filteroptions-format: forall a *filter.StorageOptions, b *filter.StorageOptions :: {fmtref(typetag("*filter.StorageOptions"), a), fmtref(typetag("*filter.StorageOptions"), b)} fmtref(typetag("*filter.StorageOptions"), a) == fmtref(typetag("*filter.StorageOptions"), b) ==> (a == nil) == (b == nil) && (a != nil ==> a.Operation == b.Operation && a.Field == b.Field && a.Value == b.Value)
+
+//@ lemma nil-is-anchor-text using : isAnchorText("nil")
+// The four layers are injective (pure string lemmas).
+//@ lemma enc1-injective using : forall i1 String, r1 String, i2 String, r2 String :: {enc1(i1, r1), enc1(i2, r2)} isDecimal(i1) && isDecimal(i2) && enc1(i1, r1) == enc1(i2, r2) ==> i1 == i2 && r1 == r2
+//@ lemma enc2-injective using : forall l1 String, r1 String, l2 String, r2 String :: {enc2(l1, r1), enc2(l2, r2)} isAnchorText(l1) && isAnchorText(l2) && enc2(l1, r1) == enc2(l2, r2) ==> l1 == l2 && r1 == r2
+//@ lemma enc3-injective using : forall u1 String, r1 String, u2 String, r2 String :: {enc3(u1, r1), enc3(u2, r2)} isAnchorText(u1) && isAnchorText(u2) && enc3(u1, r1) == enc3(u2, r2) ==> u1 == u2 && r1 == r2
+//@ lemma enc4-injective using : forall b1 String, f1 String, b2 String, f2 String :: {enc4(b1, f1), enc4(b2, f2)} (b1 == "true" || b1 == "false") && (b2 == "true" || b2 == "false") && enc4(b1, f1) == enc4(b2, f2) ==> b1 == b2 && f1 == f2
+
+// Equal key text means equal options, on every field a lookup depends on (the paging offset included).
+//@ lemma lo-key-sound-except-offset(a *LookupOptions, b *LookupOptions) using @opaque itoa-format itoa-injective timefmt-format timefmt-injective filteroptions-format nil-is-anchor-text enc1-injective enc2-injective enc3-injective enc4-injective: loEnc(a) == loEnc(b) ==> a.MaxElements == b.MaxElements && (a.LowerAnchor == nil) == (b.LowerAnchor == nil) && (a.LowerAnchor != nil ==> deref(a.LowerAnchor) == deref(b.LowerAnchor)) && (a.UpperAnchor == nil) == (b.UpperAnchor == nil) && (a.UpperAnchor != nil ==> deref(a.UpperAnchor) == deref(b.UpperAnchor)) && a.LatestAnchor == b.LatestAnchor && (a.FilterOptions == nil) == (b.FilterOptions == nil) && (a.FilterOptions != nil ==> a.FilterOptions.Operation == b.FilterOptions.Operation && a.FilterOptions.Field == b.FilterOptions.Field && a.FilterOptions.Value == b.FilterOptions.Value)
+//@ lemma lo-key-sound(a *LookupOptions, b *LookupOptions) using @opaque itoa-format itoa-injective timefmt-format timefmt-injective filteroptions-format nil-is-anchor-text enc1-injective enc2-injective enc3-injective enc4-injective: loEnc(a) == loEnc(b) ==> a.Offset == b.Offset
+
+//@ props C19
+//@ func (this Graph) RemoveTriples
+//@   nobody
+//@   pure
+//@ func (this Graph) Exist
+//@   nobody
+//@   pure
+//@ globalinv[default-lookup-set] by init: DefaultLookup != nil
